@@ -11,3 +11,4 @@ static GLOBAL: rec::Rec = rec::Rec;
 pub mod sizes;
 pub mod collx;
 pub mod apitrace;
+pub mod sentguard;
